@@ -92,6 +92,7 @@ pub fn check(c: &Case) -> CheckResult {
         .class_if(s.auto_checkpoints > 0, "crosses_checkpoint")
         .class_if(s.wal_growths > 0, "grows_log")
         .class_if(s.head_near_end > 0, "head_within_48_of_end")
+        .class_if(s.head_near_end_after_commit > 0, "head_within_48_of_end_after_a_commit")
         .class_if(s.replay_on_open > 0, "replay_on_open")
         .class_if(s.commit_on_drop > 0, "commit_on_drop")
         .class_if(s.chunked_docs > 0, "chunked_document")
@@ -127,6 +128,14 @@ pub fn corner_strategy() -> impl Strategy<Value = Case> {
     )
         .prop_map(|(pre, (d, seed), mid, post, tail)| {
             let mut ops = pre;
+            // calibration: the first log-filler teaches the interpreter the exact record overhead
+            // (its own aim is approximate); commit, wrap the log with a small put, then aim for real
+            ops.push(Op::Put(PutSpec::simple(gen::Payload::LogFill { d: 40, seed: seed ^ 1 }, 5)));
+            ops.push(Op::Commit);
+            ops.push(Op::Put(PutSpec::simple(gen::Payload::Blob { seed, len: 40, kind: gen::BlobKind::NonUtf8 }, 6)));
+            if seed % 2 == 0 {
+                ops.push(Op::Commit);
+            }
             ops.push(Op::Put(PutSpec::simple(gen::Payload::LogFill { d, seed }, 7)));
             ops.extend(mid);
             ops.extend(post);
@@ -152,12 +161,33 @@ pub fn corner_strategy() -> impl Strategy<Value = Case> {
             ops.extend(tail);
             Case { dim: 2, ops }
         });
-    prop_oneof![a, b]
+    // (c) a commit whose final write head (frame record + whatever the commit itself logs) lands
+    // within 48 bytes of the region end with nothing pending: two put+commit cycles teach the
+    // interpreter the per-cycle overhead, then a put is sized so that the NEXT commit ends there;
+    // followed by reopen or not, more puts, commit, reopen
+    let c = (
+        (prop_oneof![0u8..4, 0u8..48, 20u8..30], any::<u32>()),
+        prop::collection::vec(prop_oneof![Just(Op::Reopen), Just(Op::CrashReopen)], 0..2),
+        prop::collection::vec(prop_oneof![4 => small_put(), 1 => any::<u16>().prop_map(|target| Op::Delete { target })], 1..4),
+        prop::collection::vec(prop_oneof![Just(Op::Commit), Just(Op::Reopen), small_put()], 0..3),
+    )
+        .prop_map(|((d, seed), mid, post, tail)| {
+            let blob = |s: u32, len: u32| Op::Put(PutSpec::simple(gen::Payload::Blob { seed: s, len, kind: gen::BlobKind::Random }, 3));
+            let mut ops = vec![blob(seed ^ 11, 4000), Op::Commit, blob(seed ^ 12, 4000), Op::Commit, blob(seed ^ 13, 12_000), Op::Commit];
+            ops.push(Op::Put(PutSpec::simple(gen::Payload::CommitFill { d, seed }, 7)));
+            ops.push(Op::Commit);
+            ops.extend(mid);
+            ops.extend(post);
+            ops.push(Op::Commit);
+            ops.extend(tail);
+            Case { dim: 2, ops }
+        });
+    prop_oneof![2 => a, 1 => b, 2 => c]
 }
 
 pub fn build(ctx: &Ctx) -> Vec<Box<dyn Arm>> {
     ctx.rule("histories over Put(payload recipes incl. log-filler sizes aimed d<64 bytes before the log region end)/PutEmb/Update(±payload)/Delete/Commit/Reopen(drop commits)/CrashReopen(file snapshot taken while the handle is alive, reopened => log replay); oracle = reference model of acknowledged documents compared with the frame table (count, ids, uri, status, supersession links, chunk structure) after every commit point and contents on materialisation, after every reopen and after a final reopen; non-trivial = >= 3 mutating ops and (automatic checkpoint or log growth or replay of pending records on open)");
-    ctx.rule("arm log_corners: structured histories aimed at (a) a log-filler put that parks the write head within 48 bytes of the region end followed by every continuation (commit or not, reopen / kill-reopen or not, more puts, commit, reopen) and (b) committed puts that move the head away from 0, a small put left pending, then a put (60..260 KB) too large to fit behind the head even after the region has grown");
+    ctx.rule("arm log_corners: structured histories aimed at (a) a log-filler put that parks the write head within 48 bytes of the region end followed by every continuation (commit or not, reopen / kill-reopen or not, more puts, commit, reopen) and (b) committed puts that move the head away from 0, a small put left pending, then a put (60..260 KB) too large to fit behind the head even after the region has grown and (c) a put sized (after learning the per put+commit log overhead from earlier cycles) so that the write head is within 48 bytes of the region end right after a COMMIT, nothing pending, followed by reopen or not, further puts, commit, reopen");
     ctx.assume("a commit point materialises all acknowledged operations; the number of chunk frames of a document is validated a posteriori, not predicted");
     ctx.assume("a put/commit that returns Err is not acknowledged: the history stops there (class aborted_on_api_error) and is not a C01 violation; Memvid::open failing after acknowledged operations is");
     let t = ctx.tier;
